@@ -564,6 +564,24 @@ macro "wk_none " s:term:max now:term:max key:term:max : tactic => `(tactic|
 theorem asStr_of_valOf_strNil {s : MState} {key : Bytes} (hv : valOf s key = some .strNil) :
     asStr s key = some none := by simp [asStr, hv]
 
+theorem asStr_of_valOf_strEmpty {s : MState} {key : Bytes} (hv : valOf s key = some (.str [])) :
+    asStr s key = some (some []) := by simp [asStr, hv]
+
+/-- whether `SetRange` succeeds depends only on the bytes of the string (nil and empty agree) -/
+theorem setRange_isSome_congr (a b : DsStr.S) (h : DsStr.bytes a = DsStr.bytes b) (offset : Int) (value : Bytes) :
+    (DsStr.setRange a offset value).isSome = (DsStr.setRange b offset value).isSome := by
+  unfold DsStr.setRange
+  simp only [h]
+  split
+  · rfl
+  · split
+    · rfl
+    · split <;> rfl
+
+theorem setRange_empty_isSome (offset : Int) (value : Bytes) :
+    (DsStr.setRange (some []) offset value).isSome = (DsStr.setRange none offset value).isSome :=
+  setRange_isSome_congr (some []) none rfl offset value
+
 /-! ## string family -/
 section str
 variable (s : MState) (hp : s.pebble = true) (now : Int)
@@ -571,48 +589,48 @@ include hp
 
 theorem frame_set (key value : Bytes) (keepTTL : Bool) : Frame [] s (Api.set s now key value keepTTL).1 := by
   unfold Api.set
-  wk_some s now key Val.strNil
+  wk_some s now key (Val.str [])
   · split
     · exact h
     · exact ((h.setVal hp _ _).setExpIf _ _ _).finish _ _
-  · simp only [asStr_of_valOf_strNil hv]
+  · simp only [asStr_of_valOf_strEmpty hv]
     exact ((h.setVal hp _ _).setExpIf _ _ _).finish _ _
 
 theorem frame_setOpt (key : Bytes) (value : DsStr.S) (keepTTL : Bool) :
     Frame [] s (Api.setOpt s now key value keepTTL).1 := by
   unfold Api.setOpt
-  wk_some s now key Val.strNil
+  wk_some s now key (Val.str [])
   · split
     · exact h
     · exact ((h.setVal hp _ _).setExpIf _ _ _).finish _ _
-  · simp only [asStr_of_valOf_strNil hv]
+  · simp only [asStr_of_valOf_strEmpty hv]
     exact ((h.setVal hp _ _).setExpIf _ _ _).finish _ _
 
 theorem frame_getSet (key value : Bytes) : Frame [] s (Api.getSet s now key value).1 := by
   unfold Api.getSet
-  wk_some s now key Val.strNil
+  wk_none s now key
+  split
+  · exact (((h.newKeyWith _ _ _).setVal hp _ _).setExp _ _).finish _ _
   · split
     · exact h
     · exact ((h.setVal hp _ _).setExp _ _).finish _ _
-  · simp only [asStr_of_valOf_strNil hv]
-    exact ((h.setVal hp _ _).setExp _ _).finish _ _
 
 theorem frame_setEX (key value : Bytes) (seconds : Int) : Frame [] s (Api.setEX s now key value seconds).1 := by
   unfold Api.setEX
-  wk_some s now key Val.strNil
+  wk_some s now key (Val.str [])
   · split
     · exact h
     · exact ((h.setVal hp _ _).setExp _ _).finish _ _
-  · simp only [asStr_of_valOf_strNil hv]
+  · simp only [asStr_of_valOf_strEmpty hv]
     exact ((h.setVal hp _ _).setExp _ _).finish _ _
 
 theorem frame_setPX (key value : Bytes) (ms : Int) : Frame [] s (Api.setPX s now key value ms).1 := by
   unfold Api.setPX
-  wk_some s now key Val.strNil
+  wk_some s now key (Val.str [])
   · split
     · exact h
     · exact ((h.setVal hp _ _).setExp _ _).finish _ _
-  · simp only [asStr_of_valOf_strNil hv]
+  · simp only [asStr_of_valOf_strEmpty hv]
     exact ((h.setVal hp _ _).setExp _ _).finish _ _
 
 theorem frame_setNX (key value : Bytes) (keepTTL : Bool) : Frame [] s (Api.setNX s now key value keepTTL).1 := by
@@ -633,20 +651,20 @@ theorem frame_setXX (key value : Bytes) (keepTTL : Bool) : Frame [] s (Api.setXX
 
 theorem frame_setBit (key : Bytes) (offset : Int) (value : Bool) : Frame [] s (Api.setBit s now key offset value).1 := by
   unfold Api.setBit
-  wk_some s now key Val.strNil
+  wk_some s now key (Val.str [])
   · split
     · exact h
     · exact (h.setVal hp _ _).finish _ _
-  · simp only [asStr_of_valOf_strNil hv]
+  · simp only [asStr_of_valOf_strEmpty hv]
     exact (h.setVal hp _ _).finish _ _
 
 theorem frame_append (key value : Bytes) : Frame [] s (Api.append s now key value).1 := by
   unfold Api.append
-  wk_some s now key Val.strNil
+  wk_some s now key (Val.str [])
   · split
     · exact h
     · exact (h.setVal hp _ _).finish _ _
-  · simp only [asStr_of_valOf_strNil hv]
+  · simp only [asStr_of_valOf_strEmpty hv]
     exact (h.setVal hp _ _).finish _ _
 
 /-
@@ -661,13 +679,13 @@ theorem frame_addInt (key : Bytes) (delta : Int) (neg sw : Bool)
     (hreg : live s now key = true ∨ inInt64 (if neg then -delta else delta) = true) :
     Frame [] s (Api.addInt s now key delta neg sw).1 := by
   unfold Api.addInt
-  wk_some s now key Val.strNil
+  wk_some s now key (Val.str [])
   · split
     · exact h
     · split
       · exact h
       · exact (h.setVal hp _ _).finish _ _
-  · simp only [asStr_of_valOf_strNil hv]
+  · simp only [asStr_of_valOf_strEmpty hv]
     have hin : inInt64 (if neg then -delta else delta) = true := by
       rcases hreg with h' | h'
       · rw [hl] at h'; cases h'
@@ -675,11 +693,11 @@ theorem frame_addInt (key : Bytes) (delta : Int) (neg sw : Bool)
     have hp0 : parseInt64 [48] = some 0 := by decide
     cases neg
     · simp only [Bool.false_eq_true, if_false] at hin ⊢
-      simp only [DsStr.incr, DsStr.addInt, DsStr.bytes, Option.getD_none, List.isEmpty_nil, if_true, hp0,
+      simp only [DsStr.incr, DsStr.addInt, DsStr.bytes, Option.getD_some, List.isEmpty_nil, if_true, hp0,
         Int.zero_add, hin]
       exact (h.setVal hp _ _).finish _ _
     · simp only [if_true] at hin ⊢
-      simp only [DsStr.decr, DsStr.addInt, DsStr.bytes, Option.getD_none, List.isEmpty_nil, if_true, hp0,
+      simp only [DsStr.decr, DsStr.addInt, DsStr.bytes, Option.getD_some, List.isEmpty_nil, if_true, hp0,
         Int.zero_add, hin]
       exact (h.setVal hp _ _).finish _ _
 
@@ -695,17 +713,18 @@ theorem frame_setRange (key : Bytes) (offset : Int) (value : Bytes)
     (hreg : live s now key = true ∨ (DsStr.setRange none offset value).isSome = true) :
     Frame [] s (Api.setRange s now key offset value).1 := by
   unfold Api.setRange
-  wk_some s now key Val.strNil
+  wk_some s now key (Val.str [])
   · split
     · exact h
     · split
       · exact h
       · exact (h.setVal hp _ _).finish _ _
-  · simp only [asStr_of_valOf_strNil hv]
+  · simp only [asStr_of_valOf_strEmpty hv]
     have hin : (DsStr.setRange none offset value).isSome = true := by
       rcases hreg with h' | h'
       · rw [hl] at h'; cases h'
       · exact h'
+    rw [← setRange_empty_isSome] at hin
     split
     · next hn => rw [hn] at hin; cases hin
     · exact (h.setVal hp _ _).finish _ _
